@@ -12,7 +12,7 @@ order = [f['id'] for f in k['findings']]
 def put(f, src):
     f = dict(f)
     if f.get('status') == 'fixed':
-        c = f.get('commit') or f.get('fixed_by') or ''
+        c = f.get('commit') or f.get('fixed_by') or f.get('fixed_in') or ''
         f['commit'] = c
         if not str(f.get('what', '')).startswith('fixed:'):
             f['what'] = f"fixed: property={f['property']} {c} {f.get('what', '')}"
